@@ -45,6 +45,12 @@ CHECKS = {
  "C10": (EX, "Fold.tla states the single canonical relation by its classes; an oracle independent of regress supplies the classes for all code points; the runner sweeps all 1 114 112 code points through every folding mechanism (hooks) and runs literal / class / negated class / backreference regexes for every cased code point in i, iu, iv; TLC (JudgeFold.tla) judges every record; the model-alphabet families are judged against ESSem.",
          "exhaustive sweep over all code points judged by TLC against the Fold TLA+ relation with an external oracle", "5 C10",
          "oracle = regex-syntax Unicode 16 simple case folding + Rust std Unicode 17 to_uppercase; differences confined to code points assigned after Unicode 16 or to supplementary code points without u/v are reported as undecided"),
+ "C14": (MC, "A runner built with the utf16 feature encodes every haystack of the TLC-enumerated families as UTF-16, searches it with find_from_utf16 from every boundary, translates offsets to code point indices and TLC judges the sequences against ESSem; the no_opt program, find_from_ucs2 (BMP haystacks) and the string API of the same build must agree; every u16 string up to length 3/4 over an alphabet with lone surrogates goes through both entry points from every offset for every pattern of the UTF-16 family.",
+         "TLC-judged exhaustive replay through the UTF-16 entry points against ESSem + exhaustive short u16 strings for robustness", "5 C14",
+         "legacy i with cased supplementary letters is compared between entry points only"),
+ "C15": (EX, "The TLC-enumerated families are replayed by six runner binaries (default, index-positions, prohibit-unsafe, both, utf16, no-std alloc) and every observation record must equal the default build's, which TLC judges against ESSem; the exhaustive token-string families of C08 must compile identically.",
+         "exhaustive replay of TLC-enumerated families across six feature builds, default judged by TLC", "5 C15",
+         "six builds; the pattern feature (nightly) is covered by C20"),
  "C07": (EX, "Every compile of the C08 exploration must return (panics are caught per case, process deaths and watchdog expiries are attributed to their case), and Limits.tla states the resource contract for adversarially large patterns (nesting to 10^5-10^6, 10^6 groups/loops/alternatives/characters, counts to 10^23, nested exact counts), which the runner expands and compiles in child processes.",
          "TLC-enumerated short strings + TLA+ resource-limit families replayed under a watchdog in child processes", "5 C07",
          "totality over arbitrarily long inputs is sampled at the listed sizes, not exhausted; watchdog 20 s / 60 s per compile call"),
